@@ -492,4 +492,32 @@ theorem SerOK.objs_of_nil {s : State} {r : State × List ObjId} (h : SerOK s r) 
   · exact h.other j h1 (by rw [hn]; simp)
   · exact h.keep j h1
 
+
+theorem access_ok_nonghost (s : State) (i) (h : (access s i).2 = none) :
+    ((access s i).1.objs i).status ≠ .ghost := by
+  by_cases hg : (s.objs i).status = .ghost
+  · unfold access at h ⊢; dsimp only at h ⊢
+    repeat' split at h
+    all_goals first | cases h | skip
+    all_goals simp_all [setO]
+  · rw [access_nonghost s i hg]; exact hg
+
+theorem storeRec_none (s : State) (i k r) (hsp : s.sp = none) (h : (storeRec s i k r).2 = none) :
+    (storeRec s i k r).1.sp = none ∧ (storeRec s i k r).1.nstores = s.nstores + 1 ∧
+    (storeRec s i k r).1.staged = s.staged ++ [(k, r)] := by
+  unfold storeRec at h ⊢; simp only [hsp] at h ⊢
+  unfold storageStore at h ⊢; dsimp only at h ⊢
+  repeat' split at h
+  all_goals first | cases h | skip
+  all_goals simp_all
+
+theorem storeRec_tmp (s : State) (i k r t) (hsp : s.sp = some t) :
+    (storeRec s i k r).1.sp = some (t.store k r) ∧ (storeRec s i k r).1.staged = s.staged ∧
+    ((storeRec s i k r).1.objs i).status = .uptodate := by
+  unfold storeRec; simp [hsp, setO]
+
+theorem classify_modified (s : State) (i k) :
+    (classify s i k).modified = if isNewObj s (s.objs i) k = true then s.modified else s.modified ++ [k] := by
+  unfold classify; split <;> simp_all
+
 end Proofs.Conn
